@@ -11,6 +11,18 @@ fn main() {
     if args.len() < 2 {
         usage();
     }
+    if args[1] == "worker" {
+        // worker <PROP> <stream> <from> <to>
+        let seed = std::env::var("VERIF_SEED").ok().and_then(|s| s.parse().ok()).unwrap_or(1);
+        let stream: u64 = args[3].parse().unwrap();
+        let from: u64 = args[4].parse().unwrap();
+        let to: u64 = args[5].parse().unwrap();
+        let f: vharness::monitor::CaseFn = match (args[2].as_str(), stream) {
+            ("C15", 1) => vharness::checks_misc::c15_soup_case,
+            _ => usage(),
+        };
+        std::process::exit(vharness::monitor::worker_main(seed, stream, from, to, f));
+    }
     if args[1] == "replay" {
         let Some(path) = args.get(2) else { usage() };
         std::process::exit(replay(path));
@@ -30,6 +42,17 @@ fn main() {
         "C10" => vharness::checks_hist::c10(tier),
         "C11" => vharness::checks_hist::c11(tier),
         "C12" => vharness::checks_hist::c12(tier),
+        "C15" => vharness::checks_misc::c15(tier),
+        "C16" => vharness::checks_misc::c16(tier),
+        #[cfg(feature = "hooks")]
+        "C02" => vharness::checks_lang::run_lang(vharness::checks_lang::Which::C02, tier),
+        #[cfg(feature = "hooks")]
+        "C03" => vharness::checks_lang::run_lang(vharness::checks_lang::Which::C03, tier),
+        #[cfg(not(feature = "hooks"))]
+        "C02" | "C03" | "C18" => {
+            println!("INCONCLUSIVE property={} reason=the tree under test does not compile with the hook feature", args[1]);
+            2
+        }
         _ => usage(),
     };
     std::process::exit(code);
